@@ -99,6 +99,7 @@ NOT_APPLICABLE = {
     "C10": "Service::handle_announcement / relay over HashMap state keyed by 32-byte ids, sqlite stores and signed messages; a 2-entry HashMap does not finish under CBMC (DESIGN §7, §8); the strictly-newer clause is decided under C24",
     "C11": "same Service state as C10 (hash maps, sqlite, signatures) (DESIGN §7)",
     "C12": "is_authorized needs Storage::repository + identity_doc (git2 handles, serde_json Doc) and the request header parser (upload_pack::pktline) does not finish under CBMC in any layout (15 min, DESIGN §8): neither half of the decision kernel is encodable within reach",
+    "C23": "radicle-dag: std B-trees, VecDeque and the recursive visit() over a symbolic dependents set. With bit-mask containers and only the 3 possible edges of a 3-node graph symbolic, sorted() alone does not finish in 15 min (recursion unwound to the bound with 4 slots per level); the earlier sorted-Vec shadows did not finish 3-node remove/merge in 15 min either (DESIGN §8)",
     "C26": "truncation runs unicode-segmentation's grapheme cursor and unicode-display-width's tables; CBMC executes their binary searches symbolically even for a concrete one-character text (a single space: > 1200 loop unwindings, no result in 20 min), DESIGN §8",
     "C16": "interleavings across Service and Wire (reactor, hash maps, channels); Kani has no concurrency and the sequential machine sits on the same hash maps (DESIGN §7)",
     "C18": "canonical JSON is produced by serde_json's serializer through Box<dyn Write>, BTreeMap<Vec<u8>,Vec<u8>> buffering and Unicode NFC tables; two symbolic characters exceed the budget (DESIGN §7)",
@@ -109,4 +110,4 @@ NOT_APPLICABLE = {
 
 # Planned in DESIGN.md §4 but the check is not built (yet): listed as not applicable until it is.
 _P = "solver-based check planned in DESIGN.md §4 but not built yet in this tree; not claimed until it runs"
-PENDING = {k: _P for k in [k for k in ["C03", "C12", "C13", "C15", "C17", "C19", "C21", "C22", "C23", "C24", "C25", "C26", "C27", "C29"] if k not in CLAIMS]}
+PENDING = {k: _P for k in [k for k in ["C03", "C13", "C15", "C17", "C19", "C21", "C22", "C24", "C25", "C27", "C29"] if k not in CLAIMS]}
